@@ -10,4 +10,6 @@ def check(ctx, rep):
     treer.tree_5(ctx, rep)
     treer.tree_0(ctx, rep)
     treer.tree_9(ctx, rep)
+    from ..rules import eff as _lm
+    _lm.lmemo_1(ctx, rep)        # an activation-local memo stores under a key only what the key determines
     rep.note('Not decided: equality of the round-tripped tree as a value.')
